@@ -552,9 +552,26 @@ def check_generator(ctx, fi, G, counts, rows, method_p):
         okp = 'p' in a and prop_to(a['p'], counts)
         ok = 'a' in a and size_of(a['a'], (counts,)) and T(a.get('size')) == rows and okp and \
             ('replace' not in a or (isinstance(a['replace'], ast.Constant) and a['replace'].value is True))
+    note = ''
+    if not ok:
+        # second construction of n i.i.d. draws: multinomial cell counts laid out in a uniformly random order.  Without the random order the
+        # values come out SORTED: their position then depends on the value, i.e. on nothing but the rank inside the frame / group, and the
+        # column is no longer independent of the columns generated earlier given its parents.
+        inner, permuted = sample, False
+        if isinstance(inner, ast.Call) and U(inner.func).split('.')[-1] == 'permutation' and len(inner.args) == 1 and not inner.keywords:
+            inner, permuted = inner.args[0], True
+        if isinstance(inner, ast.Call) and U(inner.func).split('.')[-1] == 'repeat' and len(inner.args) == 2 and not inner.keywords:
+            vals, reps = inner.args
+            okv = isinstance(vals, ast.Call) and U(vals.func).split('.')[-1] == 'arange' and len(vals.args) == 1 and size_of(vals.args[0], (counts,))
+            okm = isinstance(reps, ast.Call) and U(reps.func).split('.')[-1] == 'multinomial' and len(reps.args) == 2 and not reps.keywords \
+                and T(reps.args[0]) == rows and prop_to(reps.args[1], counts)
+            if okv and okm:
+                ok = permuted
+                if not permuted:
+                    note = ' - multinomial cell counts repeated in cell order: the values are sorted, not in random order'
     ctx.ob('count-conservation', fi, G, ok,
            'sampling mode must draw exactly `%s` values from range(len(counts)) with probability proportional to the counts '
-           '(zero-count cells get probability 0); draws `%s`' % (rows, U(sample)[:140]), construct='sampling mode of the column generator')
+           '(zero-count cells get probability 0), in random order; draws `%s`%s' % (rows, U(sample)[:140], note), construct='sampling mode of the column generator')
     # ---- rounding mode -------------------------------------------------------------------------------------------------------------
     if not (isinstance(rnd, ast.Call) and U(rnd.func) in ('np.repeat', 'numpy.repeat') and len(rnd.args) == 2):
         raise AnalysisError('synthetic_data: rounding mode does not return repeat(arange(n), integer counts): `%s`' % U(rnd)[:120])
